@@ -9,7 +9,7 @@ RULE = (
     "scenario = 1-4 generated trees sharing files (and repeating a file under several paths) in a local cache, destination "
     "remote-like (base HashFileDB over a non-local filesystem) or local, closed request (dirs listed with their files) or "
     "expanded (shallow=False), with/without an ObjectDBIndex, jobs 1/4; round = one subset of objects whose upload fails "
-    "(every subset when <= 6 objects, sampled otherwise), followed by a fault-free retry; the closure monitor runs at every "
+    "(every subset when <= 6 objects, sampled otherwise), followed by a fault-free retry; additionally: one directory of 257-700 distinct files per shard (failures at the low/middle/high end of the oid order), a round in which the first 1-3 reads of the directory objects' listings fail while a listed file fails to upload; the closure monitor runs at every "
     "observable destination state (after every upload / before every fs mutation) and at the end; crash rounds kill a child "
     "process at enumerated mutating events.  non-trivial = at least one upload failed and at least one succeeded; "
     "distinct = (scenario content, request form, failing subset)"
@@ -21,7 +21,7 @@ ASSUMPTIONS = [
 ]
 MONITORS = "closure(dest) evaluated at every intermediate destination state via FaultyFS.after_put / audit hook, plus end-state and retry checks"
 REQUIRED_COUNTERS = [
-    "source_index_rounds", "index_history_rounds", "source_vanish_rounds", "rounds", "states_observed", "rounds_with_failures", "shared_file_failure_rounds", "retries", "rounds_with_index",
+    "wide_directory_scenarios", "dir_read_fault_rounds", "dir_listing_reads_failed", "source_index_rounds", "index_history_rounds", "source_vanish_rounds", "rounds", "states_observed", "rounds_with_failures", "shared_file_failure_rounds", "retries", "rounds_with_index",
     "dirs_withheld", "exhaustive_scenarios", "crash_children",
 ]
 EXHAUSTIVE = {"quick": False, "thorough": False}
@@ -39,11 +39,16 @@ def run_shard(ctx):
     res = ctx.res
     max_rounds = 40 if ctx.tier == "quick" else 130
 
+    wide_cases = {ctx.shard + 16 * j for j in range(1 if ctx.tier == "quick" else 4)}
+
     for case, rng in ctx.cases(ctx.plan["n"]):
 
         def one(case=case, rng=rng):
             d = ctx.fresh("t")
-            sc = Scenario(ctx, rng, d, ntrees=rng.choice([1, 2, 2, 3, 4]))
+            wide = rng.choice([257, 300, 420] if ctx.tier == "quick" else [257, 300, 520, 700]) if case in wide_cases else 0
+            sc = Scenario(ctx, rng, d, ntrees=rng.choice([1, 2]) if wide else rng.choice([1, 2, 2, 3, 4]), wide=wide)
+            if wide:
+                res.count("wide_directory_scenarios")
             expanded = rng.random() < 0.4
             use_index = rng.random() < 0.5
             jobs = rng.choice([1, 4])
@@ -53,6 +58,11 @@ def run_shard(ctx):
             shared = {o for o in file_oids if sum(o in t["listing"].values() for t in sc.trees) > 1}
             universe = file_oids + (sorted(dirs) if rng.random() < 0.5 and len(file_oids) + len(dirs) <= 6 else [])
             subsets, exhaustive = failure_subsets(rng, universe, must_include=sorted(shared)[:2])
+            if wide:
+                # few rounds (each one is long): single files at the low / middle / high end of the oid order, and a random handful
+                subsets = [frozenset([file_oids[0]]), frozenset([file_oids[len(file_oids) // 2]]), frozenset([file_oids[-1]]),
+                           frozenset(rng.sample(file_oids, 5))][: 4 if ctx.tier == "thorough" else 3]
+                rng.shuffle(subsets)
             if exhaustive:
                 res.count("exhaustive_scenarios")
             if len(subsets) > max_rounds:
@@ -82,7 +92,12 @@ def run_shard(ctx):
                 res.count("rounds")
                 viol = []
 
+                nstate = [0]
+
                 def on_state():
+                    nstate[0] += 1
+                    if wide and nstate[0] % 16:
+                        return  # wide directories: every 16th intermediate state (and always the end state, below)
                     probs, _n = closure_of(sc)
                     for doid, missing in probs:
                         kind = "shared-file" if set(missing) & shared else "own-file"
@@ -90,7 +105,10 @@ def run_shard(ctx):
 
                 with UploadFaults(sc, S, on_state) as uf:
                     r = _transfer(sc, ids, shallow, jobs, index)
-                res.count("states_observed", uf.states)
+                res.count("states_observed", uf.states if not wide else uf.states // 16 + 1)
+                if wide:
+                    nstate[0] = 15
+                    on_state()
                 after = dest_objects(sc)
                 if S:
                     res.count("rounds_with_failures")
@@ -142,9 +160,69 @@ def run_shard(ctx):
                     res.violation("dir-present-without-its-files/after-retry", "closure broken after retry", case=case, detail={"probs": probs[:3]})
                 if index is not None:
                     index.close()
+            # ---- the directory object cannot be read when the transfer wants its listing (transient: first reads fail), and a listed file fails to upload
+            if not ctx.out_of_time() and not wide:
+                from dvc_objects.fs.local import LocalFileSystem
+
+                from ..monitors import MethodPatch
+
+                wipe(sc.dest_root)
+                sc.dest = sc._mk_dest()
+                tvict = rng.choice(sc.trees)
+                S5 = frozenset(rng.sample(sorted(set(tvict["listing"].values())), 1))
+                dir_paths = {os.path.abspath(sc.src_path(t["oid"])) for t in sc.trees}
+                nfail = rng.choice([1, 2, 2, 3])
+                seen_reads = {}
+
+                def flaky_open(orig):
+                    def wrapper(self, path, mode="r", **kw):
+                        ap = os.path.abspath(path) if isinstance(path, str) else path
+                        if "b" not in mode and "r" in mode and ap in dir_paths:
+                            seen_reads[ap] = seen_reads.get(ap, 0) + 1
+                            if seen_reads[ap] <= nfail:
+                                import errno as _e
+
+                                raise OSError(_e.EIO, "injected read fault (verif)", path)
+                        return orig(self, path, mode, **kw)
+
+                    return wrapper
+
+                viol5 = []
+
+                def on_state5():
+                    probs, _n = closure_of(sc)
+                    viol5.extend(probs)
+
+                res.evaluated()
+                res.count("dir_read_fault_rounds")
+                raised = None
+                r5 = None
+                with MethodPatch(LocalFileSystem, "open", flaky_open), UploadFaults(sc, S5, on_state5) as uf5:
+                    try:
+                        r5 = _transfer(sc, ids, shallow, jobs, None)
+                    except OSError as e:
+                        raised = e
+                        res.count("dir_read_fault_rounds_raised")
+                res.count("states_observed", uf5.states)
+                res.count("dir_listing_reads_failed", sum(min(v, nfail) for v in seen_reads.values()))
+                res.nontrivial(scen_sig, "dir-read-fault", sorted(S5), nfail)
+                endp5, _n = closure_of(sc)
+                after5 = dest_objects(sc)
+                if viol5 or endp5:
+                    bad = (viol5 or endp5)[0]
+                    res.violation("dir-present-without-its-files/dir-listing-unreadable",
+                                  f"the listing of a directory could not be read (transient) and a listed file failed: {bad[0]} uploaded without {bad[1][:2]}",
+                                  case=case, detail={"failing": sorted(S5), "read_failures": nfail, "dest": sc.dest_kind, "expanded": expanded})
+                elif r5 is not None:
+                    f5 = {h.value for h in r5.failed}
+                    for doid, t in dirs.items():
+                        if any(v not in after5 for v in t["listing"].values()) and doid not in f5:
+                            res.violation("dir-with-undelivered-file-not-reported-failed/dir-listing-unreadable",
+                                          f"{doid} incomplete but not in result.failed", case=case, detail={"failing": sorted(S5)})
+
             # ---- a history sharing one destination index: push A, the remote loses A (and A's files), push B which shares a file with A
             pairs = [(a, b) for a in sc.trees for b in sc.trees if a is not b and set(a["listing"].values()) & set(b["listing"].values())]
-            if pairs and not ctx.out_of_time():
+            if pairs and not ctx.out_of_time() and not wide:
                 A, B = rng.choice(pairs)
                 wipe(sc.dest_root)
                 sc.dest = sc._mk_dest()
@@ -184,7 +262,7 @@ def run_shard(ctx):
                 index.close()
 
             # ---- pulling the same directories twice through one *source* index (expanded request), the destination wiped in between
-            if not ctx.out_of_time():
+            if not ctx.out_of_time() and not wide:
                 wipe(sc.dest_root)
                 sc.dest = sc._mk_dest()
                 sidx = ObjectDBIndex(os.path.join(d, "idx-src"), "src")
@@ -217,7 +295,7 @@ def run_shard(ctx):
                 sidx.close()
 
             # ---- source objects that vanish between the status query and their upload (last: it damages the source)
-            if not ctx.out_of_time():
+            if not ctx.out_of_time() and not wide:
                 wipe(sc.dest_root)
                 sc.dest = sc._mk_dest()
                 vanish = {o for o in file_oids if rng.random() < 0.3} or set(file_oids[:1])
